@@ -14,7 +14,7 @@
    theorems [add_mapped_trait_installs_shadow], [remove_mapped_trait_clears_derived_name],
    [remove_trait_restores_class_rule_for_derived_names] at the end. *)
 From Coq Require Import ZArith List Bool.
-From TV Require Import Common.Harness C13.Model C13.Law C13.Corr C13.Proofs.
+From TV Require Import Common.Harness C13.Model C13.Law C13.Corr C13.Proofs C13.MapProofs.
 Import ListNotations.
 Open Scope Z_scope.
 
@@ -366,6 +366,71 @@ Theorem remove_list_trait_clears_items_event :
     assoc n (s_itd s') = None /\ assoc (n ++ items_suffix) (s_itd s') = None /\ assoc n (s_od s') = None.
 Proof. exact remove_list_clears. Qed.
 Print Assumptions remove_list_trait_clears_items_event.
+
+(* ---- the law on histories WITH a mapped trait (MapProofs.v) ----
+   [pair_op n o]: o is a get / set / del of name n or of its shadow name n_;
+   [Agree s ls]: the law's bookkeeping (instance traits, stored values) agrees with the object. *)
+
+(* From ANY object state whose bookkeeping agrees, under ANY class-level rule and class tables:
+   add_trait(n, Map(m, default d)) (d a key of m) followed by any history of get / set / del on n
+   and n_, with or without a final remove_trait(n), satisfies the whole law (Map.post_setattr's
+   write of n_, materialised defaults, the shadow's mapped default, clause 93 on removal). *)
+Theorem law_holds_on_the_life_of_a_mapped_trait :
+  forall (crule : name -> rule) pt n m d wd, zassoc d m = Some wd ->
+  forall ops s ls i, Agree s ls -> forallb (pair_op n) ops = true ->
+    law_hist crule i ls (run pt s (OAdd n (PMap m d) :: ops)) = [] /\
+    law_hist crule i ls (run pt s (OAdd n (PMap m d) :: ops ++ [ORem n])) = [].
+Proof. exact mapped_life. Qed.
+Print Assumptions law_holds_on_the_life_of_a_mapped_trait.
+
+(* every single get / set / del on n or n_ while the pair is installed: the law's step check
+   passes, the pair stays, the bookkeeping agrees again *)
+Theorem mapped_pair_step_obeys_the_law :
+  forall (crule : name -> rule) pt n m d wd, zassoc d m = Some wd ->
+  forall s ls o, Pair n m d s -> Agree s ls -> pair_op n o = true -> Good crule pt n m d s ls o.
+Proof. exact pair_step. Qed.
+Print Assumptions mapped_pair_step_obeys_the_law.
+
+(* a fresh object of any class (hence either reading of "inherited", any hierarchy) *)
+Theorem law_holds_on_mapped_trait_of_a_fresh_object :
+  forall (crule : name -> rule) ct pt n m d wd ops i,
+    zassoc d m = Some wd -> forallb (pair_op n) ops = true ->
+    law_hist crule i l_init (run pt (init_state ct) (OAdd n (PMap m d) :: ops)) = [] /\
+    law_hist crule i l_init (run pt (init_state ct) (OAdd n (PMap m d) :: ops ++ [ORem n])) = [].
+Proof. exact mapped_life_fresh. Qed.
+Print Assumptions law_holds_on_mapped_trait_of_a_fresh_object.
+
+(* second main theorem: every class without Map/List declarations, any clean history on plain
+   traits, THEN the life of a mapped instance trait *)
+Theorem law_holds_on_histories_with_mapped_traits :
+  forall (h : list classdef) (c : nat) (pre : list op) n m d wd (ops : list op) (i : Z),
+    plain_class h c = true ->
+    let t := class_tables h c in
+    clean_run (snd t) (init_state (fst t)) pre = true ->
+    zassoc d m = Some wd -> forallb (pair_op n) ops = true ->
+    law_hist (spec_rule h c) i l_init
+             (run (snd t) (init_state (fst t)) (pre ++ OAdd n (PMap m d) :: ops)) = [] /\
+    law_hist (spec_rule h c) i l_init
+             (run (snd t) (init_state (fst t)) (pre ++ OAdd n (PMap m d) :: ops ++ [ORem n])) = [].
+Proof. exact plain_then_mapped_life_spec. Qed.
+Print Assumptions law_holds_on_histories_with_mapped_traits.
+
+(* Non-vacuity of the second main theorem: strict class with a wildcard covering ab_; a plain
+   prefix; add_trait("ab", Map({1: 11, 2: 12})); reads, assignments (valid, invalid, to the shadow),
+   deletes; remove_trait *)
+Example mapped_theorem_nontrivial :
+  let t := class_tables [mkClass [([97; 95], PTyped VInt 7)] [1%nat]] 3 in
+  let pre := [OSet [97; 98; 95] 5; OGet [98]; OAdd [98] (PAny 5); OSet [98] 6] in
+  let ops := [OGet [97; 98; 95]; OGet [97; 98]; OSet [97; 98] 2; OGet [97; 98; 95]; OSet [97; 98] 5;
+              OSet [97; 98; 95] 9; OSet [97; 98] 2; ODel [97; 98]; ODel [97; 98; 95]; OGet [97; 98; 95]] in
+  plain_class [mkClass [([97; 95], PTyped VInt 7)] [1%nat]] 3 = true /\
+  clean_run (snd t) (init_state (fst t)) pre = true /\
+  forallb (pair_op [97; 98]) ops = true /\
+  map (fun p => o_out (snd p))
+      (run (snd t) (init_state (fst t)) (pre ++ OAdd [97; 98] (PMap [(1, 11); (2, 12)] 1) :: ops ++ [ORem [97; 98]])) =
+  [Done; Raise AttributeError; Done; Done;
+   Done; Val 5; Val 1; Done; Val 12; Raise TraitError; Done; Done; Done; Done; Val 11; Val 1].
+Proof. vm_compute. repeat split; reflexivity. Qed.
 
 (* on plain traits Model.step is the plain look-up + handlers the invariant proofs reason about *)
 Theorem model_step_on_plain_traits :
